@@ -443,11 +443,13 @@ theorem run_good {w n : Nat} {win : Bytes} {st : RhState} {buffer : Buf} {scan :
 
 /-! ### `init` and `reset` -/
 
-theorem init_ok {st : RhState} {w : Nat} (hw : w ≤ 48) : init st w = (0, { st with w := w }) := by
-  simp [init, ISAL_FINGERPRINT_MAX_WINDOW, Nat.not_lt.mpr hw]
+theorem init_ok {st : RhState} {w : Nat} (hw1 : 1 ≤ w) (hw : w ≤ 48) : init st w = (0, { st with w := w }) := by
+  have h : ¬ (w < 1 ∨ w > ISAL_FINGERPRINT_MAX_WINDOW) := by unfold ISAL_FINGERPRINT_MAX_WINDOW; omega
+  unfold init; rw [if_neg h]
 
-theorem init_bad {st : RhState} {w : Nat} (hw : 48 < w) : init st w = (-1, st) := by
-  simp [init, ISAL_FINGERPRINT_MAX_WINDOW, hw]
+theorem init_bad {st : RhState} {w : Nat} (hw : w < 1 ∨ 48 < w) : init st w = (-1, st) := by
+  have h : w < 1 ∨ w > ISAL_FINGERPRINT_MAX_WINDOW := by unfold ISAL_FINGERPRINT_MAX_WINDOW; omega
+  unfold init; rw [if_pos h]
 
 /-- the loop of `reset` computes the window hash of the first `w` bytes -/
 theorem resetLoop_spec (initBytes : Buf) (w : Nat) (hsz : w ≤ initBytes.size) :
